@@ -11,7 +11,7 @@ static const char *w_name = "heap";
 static unsigned w_prop_bit(const char *id) { return !strcmp(id, "C07") ? PC07 : !strcmp(id, "C15") ? PC15 : 0; }
 
 #define MAXN 12
-struct elem { long pad; int prio; int idx; struct cstl_heap_node hn; long tail; };
+struct elem { long pad; int prio; int idx; struct cstl_heap_node hn; long tail; struct cstl_heap_node hn2; };     /* hn2: where the OTHER heap object's elements would keep their node; never linked */
 static struct elem pool[MAXN];
 static int N, prios[MAXN], CMPMODE;
 static char cfgdesc[256];
@@ -34,12 +34,13 @@ static const struct cfg *cfgs(int thorough, int *n)
     if (thorough) { *n = (int)(sizeof thorough_cfgs / sizeof thorough_cfgs[0]); return thorough_cfgs; }
     *n = (int)(sizeof quick_cfgs / sizeof quick_cfgs[0]); return quick_cfgs;
 }
+static int USE_MACRO;      /* odd configurations build the heap with CSTL_HEAP_INITIALIZER instead of cstl_heap_init() */
 static int w_nconfigs(int thorough) { int n; cfgs(thorough, &n); return n; }
 static void w_setup(int cfg, int thorough)
 {
     int n, i;
     const struct cfg *c = &cfgs(thorough, &n)[cfg];
-    N = c->n; CMPMODE = c->cmp;
+    N = c->n; CMPMODE = c->cmp; USE_MACRO = cfg & 1;
     for (i = 0; i < N; i++) {
         if (!strcmp(c->pool, "distinct")) prios[i] = (i * 3) % N == 0 && i ? N : (i * 3) % N;
         else if (!strcmp(c->pool, "paired")) prios[i] = i / 2;
@@ -48,23 +49,33 @@ static void w_setup(int cfg, int thorough)
     }
     if (!strcmp(c->pool, "distinct")) { static const int perm[] = { 5, 2, 8, 0, 9, 3, 7, 1, 6, 4, 11, 10 }; int k = 0; for (i = 0; i < 12 && k < N; i++) if (perm[i] < N) prios[k++] = perm[i]; }
     snprintf(cfgdesc, sizeof cfgdesc, "cstl_heap, pool of %d elements with %s priorities, comparator %s", N, c->pool, CMPMODE == 0 ? "a-b" : CMPMODE == 1 ? "sign only" : CMPMODE == 2 ? "reversed" : "INT_MIN/0/INT_MAX");
+    if (USE_MACRO) snprintf(cfgdesc + strlen(cfgdesc), sizeof cfgdesc - strlen(cfgdesc), ", object built with CSTL_HEAP_INITIALIZER");
     w_nops = 0;
     for (i = 0; i < N; i++) w_ops[w_nops++] = OP(O_PUSH, i);
     w_ops[w_nops++] = OP(O_POP, 0); w_ops[w_nops++] = OP(O_CLEAR, 0); w_ops[w_nops++] = OP(O_SWAPPAIR, 0);
 }
 static const char *w_config_desc(void) { return cfgdesc; }
 
+static int cookie[2], wrong_priv, wrong_cmp, init_mismatch;
 static int cmp_elem(const void *a, const void *b, void *p)
 {
     int d = ((const struct elem *)a)->prio - ((const struct elem *)b)->prio;
-    (void)p;
+    if (p != (void *)&cookie[0]) wrong_priv++;
     if (CMPMODE == 1) return d < 0 ? -1 : d > 0;
     if (CMPMODE == 2) return -d;
     if (CMPMODE == 3) return d < 0 ? INT_MIN : d > 0 ? INT_MAX : 0;
     return d;
 }
+/* comparator of the second heap object, which never holds an element under its own configuration: opposite order */
+static int cmp_other(const void *a, const void *b, void *p) { (void)p; wrong_cmp++; return ((const struct elem *)b)->prio - ((const struct elem *)a)->prio; }
 static int korder(int a, int b) { int d = a - b; return CMPMODE == 2 ? -d : d; }
 
+static void h_init(int t)
+{
+    memset(&H[t], 0xA5, sizeof H[t]);
+    if (USE_MACRO) H[t] = (struct cstl_heap)CSTL_HEAP_INITIALIZER(struct elem, hn, cmp_elem, &cookie[0]);
+    else cstl_heap_init(&H[t], cmp_elem, &cookie[0], offsetof(struct elem, hn));
+}
 static void w_init(void)
 {
     int i, t;
@@ -72,8 +83,14 @@ static void w_init(void)
     __asan_unpoison_memory_region(pool, sizeof pool);
     memset(pool, 0x5A, sizeof pool);
     for (i = 0; i < N; i++) { pool[i].prio = prios[i]; pool[i].idx = i; pool[i].pad = 0x1111; pool[i].tail = 0x2222; m_member[i] = 0; }
-    m_count = 0;
-    for (t = 0; t < 2; t++) { memset(&H[t], 0xA5, sizeof H[t]); cstl_heap_init(&H[t], cmp_elem, NULL, offsetof(struct elem, hn)); }
+    m_count = 0; wrong_priv = wrong_cmp = init_mismatch = 0; (void)t;
+    h_init(0);
+    /* the second object is a heap of another kind: other comparator, other private pointer, node at another offset */
+    memset(&H[1], 0xA5, sizeof H[1]); cstl_heap_init(&H[1], cmp_other, &cookie[1], offsetof(struct elem, hn2));
+    /* the static initialiser and the init function must produce the same object */
+    { struct cstl_heap a, b; memset(&a, 0, sizeof a); memset(&b, 0, sizeof b); cstl_heap_init(&a, cmp_elem, &cookie[0], offsetof(struct elem, hn));
+      b = (struct cstl_heap)CSTL_HEAP_INITIALIZER(struct elem, hn, cmp_elem, &cookie[0]);
+      init_mismatch = a.bt.root != b.bt.root || a.bt.size != b.bt.size || a.bt.off != b.bt.off || a.bt.cmp.func != b.bt.cmp.func || a.bt.cmp.priv != b.bt.cmp.priv; }
 }
 static int w_enabled(mc_op_t o) { return OC(o) == O_PUSH ? !m_member[OA(o)] : 1; }
 
@@ -105,6 +122,7 @@ static int is_max(int i)
 }
 static void audit_heap(int t);
 static void check_fresh(void);
+static int untouched(const void *p, size_t n) { const unsigned char *b = p; while (n--) if (*b++ != 0x5A) return 0; return 1; }
 
 static void w_apply(mc_op_t o)
 {
@@ -150,7 +168,22 @@ static void w_apply(mc_op_t o)
     case O_SWAPPAIR:
         SHIM_CALL(ab, cstl_heap_swap(&H[0], &H[1]));
         if (ab) break;
-        if (mc_checking) { MC_CHECK(PC07, cstl_heap_size(&H[0]) == 0 && cstl_heap_get(&H[0]) == NULL, "after swap the formerly empty heap is not empty"); audit_heap(1); }
+        if (mc_checking) {
+            MC_CHECK(PC07, cstl_heap_size(&H[0]) == 0 && cstl_heap_get(&H[0]) == NULL, "after swap the formerly empty heap is not empty"); audit_heap(1);
+            MC_CHECK(PC07, wrong_cmp == 0 && wrong_priv == 0, "after swap the heap object holding the content compares with the comparator/private pointer it was initialised with, not the ones that belong to the content (%d/%d calls)", wrong_cmp, wrong_priv);
+        }
+        /* the object that received the content takes a push and a pop like the original */
+        for (i = 0; i < N && m_member[i]; i++) ;
+        if (i < N && !mc_branch_dead) {
+            SHIM_CALL(ab, cstl_heap_push(&H[1], &pool[i]));
+            if (ab) break;
+            m_member[i] = 1; m_count++;
+            SHIM_CALL(ab, rp = cstl_heap_pop(&H[1]));
+            if (ab) break;
+            i = rp ? idx_of(rp) : -1;
+            MC_CHECK(PC07, i >= 0 && m_member[i] && is_max(i), "pop from the heap object that received the content by swap returned %s", i < 0 ? "no held element" : "an element that is not a maximum");
+            if (i >= 0 && m_member[i]) { m_member[i] = 0; m_count--; }
+        }
         SHIM_CALL(ab, cstl_heap_swap(&H[0], &H[1]));
         break;
     }
@@ -203,7 +236,10 @@ static void w_audit(void)
     audit_heap(0);
     if (mc_branch_dead) return;
     MC_CHECK(PC07, cstl_heap_size(&H[1]) == 0 && H[1].bt.root == NULL, "the second (empty) heap object was disturbed");
-    for (k = 0; k < N; k++) MC_CHECK(PC07, pool[k].pad == 0x1111 && pool[k].tail == 0x2222 && pool[k].prio == prios[k] && pool[k].idx == k, "element %d: bytes outside its heap node were modified", k);
+    MC_CHECK(PC07, wrong_cmp == 0, "the comparison function of the OTHER (empty) heap object was called %d times: swap did not move the comparator with the content", wrong_cmp);
+    MC_CHECK(PC07, wrong_priv == 0, "the comparison function received a private pointer other than the one its heap was set up with (%d calls)", wrong_priv);
+    MC_CHECK(PC07, !init_mismatch, "CSTL_HEAP_INITIALIZER(TYPE, MEMB, CMP, PRIV) and cstl_heap_init(CMP, PRIV, offsetof(TYPE, MEMB)) produce different objects");
+    for (k = 0; k < N; k++) MC_CHECK(PC07, pool[k].pad == 0x1111 && pool[k].tail == 0x2222 && pool[k].prio == prios[k] && pool[k].idx == k && untouched(&pool[k].hn2, sizeof pool[k].hn2), "element %d: bytes outside its heap node were modified", k);
 }
 
 static int ck_nodes;
@@ -228,14 +264,17 @@ static void ck(const struct cstl_bintree_node *bn)
 }
 static void canon_one(int t)
 {
-    { ck_nodes = 0; KB_C('H'); KB_U(H[t].bt.size); KB_C('o'); KB_U(H[t].bt.off); KB_C(':'); ck(H[t].bt.root); }
+    { ck_nodes = 0; KB_C('H'); KB_U(H[t].bt.size); KB_C('o'); KB_U(H[t].bt.off);
+      KB_C(H[t].bt.cmp.func == cmp_elem ? 'e' : H[t].bt.cmp.func == cmp_other ? 'o' : '?'); KB_C(H[t].bt.cmp.priv == (void *)&cookie[0] ? '0' : H[t].bt.cmp.priv == (void *)&cookie[1] ? '1' : '?'); KB_C(':'); ck(H[t].bt.root); }
 }
-static void w_canon(void) { int i; canon_one(0); canon_one(1); KB_C('m'); for (i = 0; i < N; i++) KB_C(m_member[i] ? '1' : '0'); for (i = 0; i < N; i++) if (pool[i].pad != 0x1111 || pool[i].tail != 0x2222 || pool[i].prio != prios[i]) { KB_C('X'); KB_U((unsigned)i); } }
+static void w_canon(void) { int i; canon_one(0); canon_one(1); KB_C('m'); for (i = 0; i < N; i++) KB_C(m_member[i] ? '1' : '0'); for (i = 0; i < N; i++) if (pool[i].pad != 0x1111 || pool[i].tail != 0x2222 || pool[i].prio != prios[i] || !untouched(&pool[i].hn2, sizeof pool[i].hn2)) { KB_C('X'); KB_U((unsigned)i); } KB_C('w'); KB_U((unsigned)(wrong_cmp != 0)); KB_U((unsigned)(wrong_priv != 0)); KB_U((unsigned)init_mismatch); }
 static void check_fresh(void)
 {
     char a[128], b[128]; size_t save = mc_kbn, n;
     mc_kbn = 0; canon_one(0); n = mc_kbn < 127 ? mc_kbn : 127; memcpy(a, mc_kb, n); a[n] = 0;
-    mc_kbn = 0; canon_one(1); n = mc_kbn < 127 ? mc_kbn : 127; memcpy(b, mc_kb, n); b[n] = 0;
+    { struct cstl_heap keep = H[1]; memset(&H[1], 0xA5, sizeof H[1]); cstl_heap_init(&H[1], cmp_elem, &cookie[0], offsetof(struct elem, hn));     /* a never-used object of the same configuration, built by the init function */
+      mc_kbn = 0; canon_one(1); n = mc_kbn < 127 ? mc_kbn : 127; memcpy(b, mc_kb, n); b[n] = 0;
+      H[1] = keep; }
     mc_kbn = save;
     MC_CHECK(PC15, !strcmp(a, b), "after clear the heap is not like a freshly initialised one: fields %s, fresh %s", a, b);
 }
